@@ -142,8 +142,12 @@ def run_scenario(name, bound, torn=True, validate=True, max_runs=60000, time_cap
         nval = [0]
         shared = [0]
 
+        sample = []
+
         def on_complete(r):
             outcomes.add(tuple((p.result[0], repr(p.result[1])[:60]) for p in r.procs))
+            if sum(r.preempt_cost) >= 1 and not sample:
+                sample.append([f"p{pid}:{op}:{str(args[0]).rsplit('/', 1)[-1][:12]}" for pid, op, args, res in r.trace][:80])
             if validate:
                 conform.replay(init_tree, r.trace, r.vfs.tree())
                 nval[0] += 1
@@ -159,7 +163,8 @@ def run_scenario(name, bound, torn=True, validate=True, max_runs=60000, time_cap
     finally:
         tempfile.tempdir = old_tmp
         I.S.torn = True
-    stats.update(scenario=name, bound=bound, torn=torn, outcomes=len(outcomes), validated=nval[0], procs=len(sc["procs"]))
+    stats.update(scenario=name, bound=bound, torn=torn, outcomes=len(outcomes), validated=nval[0], procs=len(sc["procs"]),
+                 sample_schedule=sample[0] if sample else [])
     return stats, found
 
 
@@ -206,8 +211,10 @@ def run(tier, seed):
                         rule="per scenario: DFS over all schedules of the processes' file-system primitives (stat, mkdir, open, each half of each write, close, "
                              "unlink, symlink, rename, readlink ...) with at most `bound` preemptions, pruned on exact state keys (file-system snapshot + each "
                              "process's operation/result history + budget used); every complete schedule's merged trace is replayed against a real directory",
-                        samples=[{"scenario": per[0]["scenario"], "example_schedule": "process ids in execution order are stored in replay files",
-                                  "complete_schedules": per[0]["complete"]}])
+                        samples=[{"scenario": s_["scenario"], "complete_schedules": s_["complete"], "one_schedule_with_a_preemption": s_.pop("sample_schedule")}
+                                 for s_ in per[:2]])
+    for s_ in per:
+        s_.pop("sample_schedule", None)
     res.assumptions = ["processes share nothing but the directory; a process is deterministic given the results of its file-system operations",
                        "advisory file locks are not modelled (a change that introduces them is reported as a harness error, not as a pass)"]
     return res
